@@ -215,7 +215,9 @@ func c10Server(c *caseCtx) {
 		for _, g := range gots {
 			if g.err != "" {
 				bads = append(bads, bad{g.idx, 0, "", g.err})
-			} else if g.status != baseline[g.idx].status || g.body != baseline[g.idx].body {
+			} else if g.status != baseline[g.idx].status || (g.status == 200 && g.body != baseline[g.idx].body) {
+				// rejected requests are compared on the status only: the wording of a rejection is not unique even for one
+				// request alone (which offending map key is named first depends on map iteration order)
 				bads = append(bads, bad{g.idx, g.status, g.body, ""})
 			} else if (g.status == 200) != libBase[g.idx].OK || (g.status == 200 && g.body != string(libBase[g.idx].JSON)) {
 				bads = append(bads, bad{g.idx, g.status, g.body, ""})
@@ -426,8 +428,8 @@ func init() {
 		rule: "stream server: the real service built with -race, GOMAXPROCS in {1,4,16}, 2..64 concurrent clients; a corpus over all methods x biases (incl. ~10% requests that " +
 			"panic with a validation error) is sent 4 times concurrently " +
 			"(copies adjacent in even rounds = identical requests in flight together) - the concurrent phase runs FIRST, on the cold process, the baseline is taken " +
-			"afterwards from the same process: every response must equal the baseline byte for byte (rejections: status + body with " +
-			"bracketed name lists sorted), the process must stay alive, and the race detector log (halt_on_error=0, log_path) must contain no DATA RACE block. Stream inProc: " +
+			"afterwards from the same process: every response must equal the baseline byte for byte (rejections: status only - their wording is not unique " +
+			"even sequentially), the process must stay alive, and the race detector log (halt_on_error=0, log_path) must contain no DATA RACE block. Stream inProc: " +
 			"race-instrumented harness, 16 goroutines deciding on the shared registries through decorators that yield / sleep 0-200us at every stage boundary. Stream coldBursts: " +
 			"fresh processes in which 24 goroutines are released together on requests of one method (lazy initialisation of shared objects). Evidence " +
 			"counts overlapping request pairs (from call/return timestamps), max in flight, identical-request overlaps. distinct = distinct (methodA, methodB) pairs observed overlapping.",
